@@ -91,6 +91,7 @@ func (c *FnCtx) instr(in ssa.Instruction) {
 		c.declare(n, "Int")
 		c.vals[x] = n
 		c.closures[x] = x
+		c.checkCaptures(x)
 		// captured cells are reachable from the closure: nothing to do in the model, the cells
 		// live in HC heaps.
 	case *ssa.Range:
@@ -222,6 +223,16 @@ func (c *FnCtx) binop(x *ssa.BinOp) string {
 			c.safety("div-zero", not(eq(b, "0")), x.Pos(), "integer modulo by zero")
 			return app("tmod", a, b)
 		case token.AND:
+			// x & (1 << n): test of bit n (for 0 <= x and 0 <= n <= 62)
+			for _, pair := range [][2]ssa.Value{{x.X, x.Y}, {x.Y, x.X}} {
+				if sh, ok := pair[1].(*ssa.BinOp); ok && sh.Op == token.SHL {
+					if one, ok := constInt(sh.X); ok && one == 1 {
+						xv, n := c.term(pair[0]), c.term(sh.Y)
+						c.safety("bit-test", and(le("0", xv), le("0", n), le(n, "62")), x.Pos(), "bit test x & (1 << n) outside 0 <= x, 0 <= n <= 62")
+						return app("*", app("mod", app("div", xv, app("pow2", n)), "2"), app("pow2", n))
+					}
+				}
+			}
 			if k, ok := constInt(x.Y); ok && k >= 0 && (k+1)&k == 0 && (isUnsigned(t) || true) {
 				// x & (2^n - 1) == x mod 2^n (two's complement, mathematical mod)
 				return app("mod", a, intLit(k+1))
@@ -249,8 +260,7 @@ func (c *FnCtx) binop(x *ssa.BinOp) string {
 				return app(w, app("*", a, intLit(1<<uint(k))))
 			}
 			if ka, ok := constInt(x.X); ok && ka == 1 {
-				// 1 << n: pow2 with table facts for 0..63
-				c.pow2Facts()
+				// 1 << n: pow2 (defined for 0..63; larger counts shift everything out)
 				c.safety("shift", le("0", b), x.Pos(), "negative shift count")
 				return app(w, app("pow2", b))
 			}
@@ -371,6 +381,9 @@ func isNilConst(v ssa.Value) bool {
 }
 
 func (c *FnCtx) pow2Facts() {
+	if true {
+		return // pow2 is defined in the prelude (table for 0..63, 0 elsewhere)
+	}
 	if c.declSet["pow2facts"] {
 		return
 	}
@@ -948,4 +961,58 @@ func (c *FnCtx) mapWrittenInLoopOf(r *ssa.Range) bool {
 		}
 	}
 	return false
+}
+
+// checkCaptures: "closure K captures E" clauses of the enclosing function's contract.
+func (c *FnCtx) checkCaptures(x *ssa.MakeClosure) {
+	if c.con == nil {
+		return
+	}
+	c.nclosures++
+	callee := x.Fn.(*ssa.Function)
+	for _, cl := range c.con.Clauses {
+		if cl.Kind != "captures" || cl.Loop != c.nclosures {
+			continue
+		}
+		env := c.conEnv()
+		env.pkg = c.pkgTypes()
+		env.heap = c.cur
+		env.old = c.entry
+		env.vars = map[string]sv{}
+		for i, fv := range callee.FreeVars {
+			if i >= len(x.Bindings) {
+				break
+			}
+			b := x.Bindings[i]
+			if _, isPtr := types.Unalias(fv.Type()).Underlying().(*types.Pointer); isPtr {
+				if al, isAlloc := b.(*ssa.Alloc); isAlloc {
+					if p := spilledParam(al); p != nil {
+						env.vars[fv.Name()] = sv{c.vals[p], p.Type()}
+						continue
+					}
+					a := c.addrOf(b)
+					env.vars[fv.Name()] = sv{c.load(a), a.ty}
+					continue
+				}
+			}
+			if t, ok := c.vals[b]; ok {
+				env.vars[fv.Name()] = sv{t, b.Type()}
+			} else if k, ok := b.(*ssa.Const); ok {
+				env.vars[fv.Name()] = sv{c.constTerm(k), k.Type()}
+			}
+		}
+		blk := c.curBlock
+		env.resolve = func(name string) (sv, bool) {
+			if v, ok := c.lastDefIn(name, blk); ok {
+				return v, true
+			}
+			return c.valueAt(name, blk, nil)
+		}
+		t, err := env.evalBool(cl.E)
+		if err != nil {
+			c.attachErr = fmt.Sprintf("line %d: %v", cl.Line, err)
+			continue
+		}
+		c.oblige("captures", cl.Props, c.guard(), t, x.Pos(), cl, fmt.Sprintf("closure %d captures: %s", c.nclosures, cl.Text))
+	}
 }
